@@ -72,6 +72,7 @@ type c14Case struct {
 	panicked, inApply              bool
 	nearReached                    bool
 	nFetch                         int
+	nDirtyFills, reps              int
 	chkCalls, chkCallsWhileCopying int
 	chkNontrivial, chkOKBeforeDone bool
 	nReachable, nAccepted          int // interrupted-fetch: reachable left-overs / accepted without a fetch
@@ -817,6 +818,7 @@ func runC14(c *vc.Ctx) error {
 		"Backup(term,index)+WaitReady exactly like kvStoreSM.GetSnapshot (reference raw+logical+PFCOUNT dump recorded before the next write; variants: wait for GetResult / continue writing immediately), CompactAllRange, " +
 		"Restore of an older or the newest checkpoint, repeated restore, SetLatestSnapIndex, restore on a second diverged store after copying the checkpoint dir, clean reopen; plus a director that forces same-named sst files with different content, " +
 		"plus the large-unflushed-WAL marker scenario, plus 'near-identical-sst' (A and B built by identical operation sequences, a few early keys overwritten on A only with same-length values, both compacted: B holds an sst with the name, size and tail of one in A's checkpoint), " +
+		"plus 'hll-flush-race' (all 32 entries of the HyperLogLog write cache made dirty right before every Backup, checkpoint restored right away), " +
 		"plus 'check-while-copying' (IsLocalBackupOK polled by another replica while backupLoop copies a large checkpoint; the directory is fetched at the moment it is reported ok and restored on a second store), " +
 		"plus 'interrupted-fetch' (sources A and C with the same data but different engine file numbers, a partial left-over of a fetch from C in B's backup dir, then the production prepareSnapshotForStore fetch from A and Restore). Oracle: dump(after restore) == dump(at backup instant) raw and logical; sha1 of every checkpoint file unchanged after restores/compactions/writes; purge never removes a checkpoint >= latest snapshot index nor the newest one. " +
 		"non-trivial = case with >=1 restore of a checkpoint after the store had diverged from it; distinct by hash(script)"
@@ -846,6 +848,13 @@ func runC14(c *vc.Ctx) error {
 	}
 	for i := 0; i < c.Pick(6, 40); i++ {
 		cases = append(cases, newC14Case(c, id, "near-identical-sst"))
+		id++
+	}
+	for i := 0; i < c.Pick(8, 40); i++ {
+		cs := newC14Case(c, id, "hll-flush-race")
+		cs.Engine = []string{"pebble", "mem"}[i%2]
+		cs.reps = c.Pick(10, 20)
+		cases = append(cases, cs)
 		id++
 	}
 	for i := 0; i < c.Pick(60, 600); i++ {
@@ -879,6 +888,7 @@ func runC14(c *vc.Ctx) error {
 		c.Ev.Count("checkpoint_dir_hash_checks", int64(cs.nHashChecks))
 		c.Ev.Count("checkpoints_purged", int64(cs.nPurged))
 		c.Ev.Count("raw_dumps_during_running_copy", int64(cs.nLaterDumps))
+		c.Ev.Count("backups_right_after_filling_the_hll_write_cache_with_dirty_keys", int64(cs.nDirtyFills))
 		if cs.Scenario == "near-identical-sst" {
 			if cs.nearReached {
 				c.Ev.Count("near_identical_sst_cases", 1)
@@ -903,6 +913,9 @@ func runC14(c *vc.Ctx) error {
 				s = s[:25]
 			}
 			c.Ev.Sample(2, map[string]interface{}{"scenario": cs.Scenario, "engine": cs.Engine, "policy": cs.Policy, "keep_backup": cs.Keep, "script": s})
+		}
+		if len(cs.viol) > 0 {
+			c.Ev.Count("cases_with_violation_"+cs.Scenario+"_"+cs.Engine, 1)
 		}
 		mu.Lock()
 		all = append(all, cs.viol...)
@@ -932,6 +945,8 @@ func runC14(c *vc.Ctx) error {
 			cs.runRandom(12 + cs.r.Intn(14))
 		case "file-number-reuse":
 			cs.runFileReuse()
+		case "hll-flush-race":
+			cs.runHLLFlushRace(cs.reps)
 		case "near-identical-sst":
 			cs.runNearSST()
 		case "interrupted-fetch":
